@@ -61,20 +61,34 @@ def textbook_s_transform(x):
     m = np.arange(N, dtype=np.int64)
     mt = np.where(m <= N // 2, m, m - N).astype(float)
     E = np.exp(1j * ((np.outer(m, m) % N) * (2.0 * math.pi / N)))      # E[m, j] = exp(2 pi i m j / N)
-    T = np.empty((N // 2, N), dtype=complex)
-    for k in range(1, N // 2 + 1):
-        G = np.exp(-2.0 * math.pi ** 2 * mt ** 2 / (k * k))
-        T[k - 1] = (X[(m + k) % N] * G) @ E / N
+    K = np.arange(1, N // 2 + 1, dtype=np.int64)[:, np.newaxis]
+    G = np.exp(-2.0 * math.pi ** 2 * mt[np.newaxis, :] ** 2 / (K * K).astype(float))
+    T = (X[(m[np.newaxis, :] + K) % N] * G) @ E / N
     return T, X
 
 
 def cx_list(z):
     z = np.asarray(z, dtype=complex).reshape(-1)
-    out = []
-    for c in z:
-        out.append(float(c.real))
-        out.append(float(c.imag))
-    return out
+    out = np.empty(2 * len(z))
+    out[0::2] = z.real
+    out[1::2] = z.imag
+    return out.tolist()
+
+
+def cmp_floats(impl, model, scale, rel=1e-9):
+    """budget T on large arrays (NumPy instead of Fractions: the budget is 6 orders above the measured gaps) -> (message, gap)"""
+    a = np.asarray(impl, dtype=float)
+    b = np.asarray(model, dtype=float)
+    if a.shape != b.shape:
+        return f"length impl={a.size} model={b.size}", None
+    if a.size == 0:
+        return None, 0.0
+    d = np.abs(a - b)
+    i = int(np.argmax(d))
+    g = float(d[i]) / scale
+    if not (g <= rel):
+        return f"[{i}] impl={a[i]!r} model={b[i]!r} gap={float(d[i]):.3e} tol={rel * scale:.3e}", g
+    return None, g
 
 
 def cmp_matrix(ctx, fn, outs, val, xscale):
@@ -82,7 +96,7 @@ def cmp_matrix(ctx, fn, outs, val, xscale):
     nr, nc = int(outs[0][0]), int(outs[1][0])
     if val.shape != (nr, nc) and not (val.size == 0 and nr == 0):
         return f"shape impl={val.shape} model=({nr},{nc})"
-    msg, g = cmp_budget(cx_list(val), p_floats(outs[2]), REL, scale=max(float(np.max(np.abs(val))) if val.size else 0.0, xscale, 1e-300))
+    msg, g = cmp_floats(cx_list(val), p_floats(outs[2]), max(float(np.max(np.abs(val))) if val.size else 0.0, xscale, 1e-300))
     ctx.gap(fn, g)
     return msg
 
@@ -124,6 +138,10 @@ def one(ctx, kind, v, with_model=True, loops=False):
         return
     S = np.asarray(r1[1])
     S2 = np.asarray(r2[1])
+    finite = bool(np.all(np.isfinite(S)) and np.all(np.isfinite(S2)))
+    ctx.oracle('C15 transform values are finite', finite, inputs)
+    if not finite:
+        return
     scale = max(float(np.max(np.abs(S))) if S.size else 0.0, xs, 1e-300)
     # ---- C15.a shape, truncation to even length
     ctx.oracle('C15.a transform is an (n/2) x n complex array after truncation to even length', S.shape == (P, N) and np.iscomplexobj(S), inputs,
@@ -197,7 +215,7 @@ def one(ctx, kind, v, with_model=True, loops=False):
 
 
 def _cmp_real(ctx, fn, toks, val, scale):
-    msg, g = cmp_budget([float(t) for t in np.asarray(val).reshape(-1)], p_floats(toks), REL, scale=scale)
+    msg, g = cmp_floats(np.asarray(val, dtype=float).reshape(-1), p_floats(toks), scale)
     ctx.gap(fn, g)
     return msg
 
